@@ -12,7 +12,7 @@ Definition demo_tbl : table Qc := [
   mkRow "metre" Base;
   mkRow "second" Base;
   mkRow "gram" Base;
-  mkRow "inch" (Derived (Q2Qc (Qmake 7320557464740087 288230376151711744)) [mkF 0 (Metric 0) (Qc_of_Z 1)]);
+  mkRow "inch" (Derived (Q2Qc (Qmake 3660525777126739 144115188075855872)) [mkF 0 (Metric 0) (Qc_of_Z 1)]);
   mkRow "foot" (Derived (Qc_of_Z 12) [mkF 3 (Metric 0) (Qc_of_Z 1)]);
   mkRow "minute" (Derived (Qc_of_Z 60) [mkF 1 (Metric 0) (Qc_of_Z 1)]);
   mkRow "hour" (Derived (Qc_of_Z 60) [mkF 5 (Metric 0) (Qc_of_Z 1)]);
